@@ -162,7 +162,7 @@ class Interp:
                               model.scope_locals(self.fi))
         tgt = self.repo.lookup(d) if d else None
         if not isinstance(tgt, model.FuncInfo):
-            return None
+            return self._option_by_evaluation(call, d)
         if tgt.key in self.option_funcs:
             return self.option_funcs[tgt.key]
         for r in model.walk_shallow(tgt.node):
@@ -175,6 +175,37 @@ class Interp:
                 self.option_funcs[tgt.key] = (r.value.args[0].value,
                                               r.value.args[1].value)
                 return self.option_funcs[tgt.key]
+        return None
+
+    def _option_by_evaluation(self, call, key):
+        """An option reader that is not a plain def (built by a factory,
+        a functools.partial ...): apply it abstractly to an engine whose
+        options are opaque and read off the one options.get(name, default)
+        it performs."""
+        if len(call.args) != 1 or call.keywords:
+            return None
+        if key in self.option_funcs:
+            return self.option_funcs[key]
+        from sa import absint
+        seen = []
+
+        def oracle(callee, args, kwargs):
+            if callee == '.get' and args and isinstance(
+                    args[0], absint.Sym) and args[0].name == 'options' \
+                    and len(args) == 3:
+                seen.append((args[1], args[2]))
+                return (args[2],)
+            return None
+        it = absint.Interp(self.repo, self.mod, oracle)
+        try:
+            f = it.ev(call.func, {})
+            it.invoke(f, [absint.Obj('engine', options=absint.Sym(
+                'options'))], {})
+        except (absint.Unsupported, absint._Raise):
+            return None
+        if len(seen) == 1 and isinstance(seen[0][0], str):
+            self.option_funcs[key] = seen[0]
+            return seen[0]
         return None
 
     # -- predicates ---------------------------------------------------------
